@@ -169,6 +169,10 @@ pub enum Isa { NoSimd, Ssse3, Avx2, Neon }
 pub open spec fn best_isa_x86() -> Isa {
     if cpu_has_avx2() { Isa::Avx2 } else if cpu_has_ssse3() { Isa::Ssse3 } else { Isa::NoSimd }
 }
+// aarch64 view: DefaultEngine takes Neon iff the CPU reports it, NoSimd otherwise
+pub open spec fn best_isa_aarch64() -> Isa {
+    if cpu_has_neon() { Isa::Neon } else { Isa::NoSimd }
+}
 
 // Rust fact (trusted): a mutable slice reference cannot change the slice's length
 pub axiom fn axiom_mut_slice_len<T>(r: &mut [T])
